@@ -38,6 +38,21 @@ def _quiet_logging():
     _logging_begun.append(sink)
 
 
+class _Unpauser:
+    """'Firing' a called-but-paused Deferred = unpausing it."""
+    def __init__(self, d):
+        self.d = d
+
+    def callback(self, _):
+        self.d.unpause()
+
+    def errback(self, _):
+        self.d.unpause()
+
+    def addErrback(self, f):
+        return self
+
+
 class Runner:
     """Drives one real event object through the public API and records observable events."""
 
@@ -101,6 +116,20 @@ class Runner:
                 return d
             if k == "fired":
                 return defer.succeed(tid)
+            if k in ("chained", "paused"):
+                if k == "chained":          # called, but its result is an unfired inner Deferred
+                    inner = defer.Deferred()
+                    d = defer.succeed(tid)
+                    d.addCallback(lambda _: inner)
+                    self.unfired[tid] = inner
+                else:                       # called, but paused: fires when unpaused
+                    d = defer.Deferred()
+                    d.pause()
+                    d.callback(tid)
+                    self.unfired[tid] = _Unpauser(d)
+                if self.phase[tid] == "before":
+                    self.waiting_on.add(tid)
+                return d
             return None
         return trig
 
@@ -206,7 +235,7 @@ def config_histories(conf, max_removed):
     adds = [("add", ph, k) for ph, k in conf]
     for nrem in range(0, max_removed + 1):
         for rem in itertools.combinations(range(1, n + 1), nrem):
-            waits = [i + 1 for i, (ph, k) in enumerate(conf) if ph == "before" and k == "defer" and (i + 1) not in rem]
+            waits = [i + 1 for i, (ph, k) in enumerate(conf) if ph == "before" and k in ("defer", "chained", "paused") and (i + 1) not in rem]
             for order in itertools.permutations(waits):
                 h = adds + [("remove", x) for x in rem] + [("fire",)]
                 h += [("fired", d, "ok" if j % 2 == 0 else "err") for j, d in enumerate(order)]
@@ -271,8 +300,8 @@ def random_history(rng, api, nops, maxt):
         elif x < 0.62 and r.n < maxt:
             ph = rng.choice(PHASES)
             k = rng.choice(KINDS if ph == "before" else ("plain", "plain", "raise", "defer", "fired"))
-            if ph == "before" and rng.random() < 0.3:
-                k = "defer"
+            if ph == "before" and rng.random() < 0.4:
+                k = rng.choice(("defer", "defer", "chained", "paused"))
             op = ("add", ph, k, random_script(rng, r.n) if rng.random() < 0.3 else [])
         elif x < 0.80 and r.n:
             op = ("remove", rng.randint(1, r.n))
@@ -353,6 +382,12 @@ def run(ctx):
         for conf in small_configs(n, kinds_other):
             for i, h in enumerate(config_histories(conf, 1 if n <= 3 else 2)):
                 traces.append(run_history("raw" if (len(traces) % 2 == 0) else "reactor", h))
+    # every way a before-trigger can return a Deferred that has not fired yet, alone and in pairs, every firing order
+    for n in (1, 2, 3):
+        for conf in itertools.product([("before", k) for k in ("defer", "chained", "paused", "fired")] + [("during", "plain"), ("after", "plain")], repeat=n):
+            if any(k in ("chained", "paused") for _, k in conf):
+                for h in config_histories(conf, 0):
+                    traces.append(run_history("raw" if (len(traces) % 2 == 0) else "reactor", h))
     nre = 0
     for h in reentrant_histories():
         traces.append(run_history("raw" if (len(traces) % 2 == 0) else "reactor", h))
